@@ -16,6 +16,8 @@
 //!   op   `n` next | `p x` set_playback_hz_scale | `h a b` set_hz_to_hz | `s x` set_sample_hz_scale
 //!        | `u cap` until_exhausted().take(cap).count() (on `by_ref()` of the converter, on the converter
 //!          itself when it is the last operation)
+//!        | `src` source() | `pull` source_mut().next() | `rb hz a b` / `rb scale m` / `rb sample m`: into_source(),
+//!          a newly primed interpolator of the same kind from the returned source, the named constructor again
 //! Output: observations joined by ';'
 //!   `0 pulls iter`                       after priming + construction
 //!   `8 code`                             constructor panicked (then nothing else)
@@ -24,6 +26,9 @@
 //!   `3`                                  a set_* call
 //!   `4 count pulls`                      until_exhausted
 //!   `5 exh pulls iter frame..`           one frame pulled from the source after the converter was dropped
+//!   `6 srcexh pulls iter`                source(): its is_exhausted and the counters
+//!   `7 pulls iter frame..`               one frame pulled through source_mut()
+//!   `0 pulls iter` / `8 code`            a rebuild (after a panicking constructor the case ends)
 //! floats are bit patterns, NaN canonicalised.
 use dasp_frame::Frame;
 use dasp_interpolate::floor::Floor;
@@ -164,9 +169,20 @@ fn toks(s: &str) -> Vec<i128> {
     s.split_whitespace().map(|t| t.parse::<i128>().expect("int token")).collect()
 }
 
+fn prime_floor<S: Signal>(s: &mut S) -> Floor<S::Frame> {
+    Floor::new(s.next())
+}
+
+fn prime_linear<S: Signal>(s: &mut S) -> Linear<S::Frame> {
+    let a = s.next();
+    let b = s.next();
+    Linear::new(a, b)
+}
+
 fn drive<F, I, S>(
     src: S,
     interp: I,
+    prime: fn(&mut S) -> I,
     pulls: &Rc<Cell<i128>>,
     calls: &Rc<Cell<i128>>,
     own: i128,
@@ -230,6 +246,31 @@ where
     let mut c = Some(c);
     out.push(hd);
     for (k, op) in ops.iter().enumerate() {
+        if op[0] == "rb" {
+            let q: Vec<i128> = op[2..].iter().map(|t| t.parse().unwrap()).collect();
+            let mut source = c.take().unwrap().into_source();
+            let kind = op[1];
+            let r = catch(move || {
+                let i2 = prime(&mut source);
+                match kind {
+                    "hz" => Converter::from_hz_to_hz(source, i2, bf(q[0]), bf(q[1])),
+                    "scale" => Converter::scale_playback_hz(source, i2, bf(q[0])),
+                    "sample" => Converter::scale_sample_hz(source, i2, bf(q[0])),
+                    _ => panic!("bad ctor"),
+                }
+            });
+            match r {
+                Ok(c2) => {
+                    c = Some(c2);
+                    out.push(line(0, &[pulls.get(), calls.get()]));
+                }
+                Err(code) => {
+                    out.push(line(8, &[code as i128]));
+                    return out;
+                }
+            }
+            continue;
+        }
         let a: Vec<i128> = op[1..].iter().map(|t| t.parse().unwrap()).collect();
         match op[0] {
             "n" => {
@@ -262,6 +303,16 @@ where
                 };
                 out.push(line(4, &[n as i128, pulls.get()]));
             }
+            "src" => {
+                let s = c.as_ref().unwrap().source();
+                out.push(line(6, &[s.is_exhausted() as i128, pulls.get(), calls.get()]));
+            }
+            "pull" => {
+                let f = c.as_mut().unwrap().source_mut().next();
+                let mut v = vec![pulls.get(), calls.get()];
+                v.extend(f.enc());
+                out.push(line(7, &v));
+            }
             _ => panic!("bad op"),
         }
     }
@@ -281,18 +332,18 @@ where
     let mut out = if itp == 0 {
         let interp = Floor::new(src.next());
         match own {
-            0 => return drive(src, interp, &pulls, &calls, own, ctor, ops),
-            1 => drive(src.by_ref(), interp, &pulls, &calls, own, ctor, ops),
-            _ => drive(&mut src, interp, &pulls, &calls, own, ctor, ops),
+            0 => return drive(src, interp, prime_floor, &pulls, &calls, own, ctor, ops),
+            1 => drive(src.by_ref(), interp, prime_floor, &pulls, &calls, own, ctor, ops),
+            _ => drive(&mut src, interp, prime_floor, &pulls, &calls, own, ctor, ops),
         }
     } else {
         let a = src.next();
         let b = src.next();
         let interp = Linear::new(a, b);
         match own {
-            0 => return drive(src, interp, &pulls, &calls, own, ctor, ops),
-            1 => drive(src.by_ref(), interp, &pulls, &calls, own, ctor, ops),
-            _ => drive(&mut src, interp, &pulls, &calls, own, ctor, ops),
+            0 => return drive(src, interp, prime_linear, &pulls, &calls, own, ctor, ops),
+            1 => drive(src.by_ref(), interp, prime_linear, &pulls, &calls, own, ctor, ops),
+            _ => drive(&mut src, interp, prime_linear, &pulls, &calls, own, ctor, ops),
         }
     };
     // the converter is gone: the borrowed source continues exactly where it was left
